@@ -30,6 +30,7 @@ from apischema.objects.visitor import (
     ObjectVisitor,
     SerializationObjectVisitor,
 )
+from apischema.serialization.serialized_methods import get_serialized_methods
 from apischema.type_names import TypeNameFactory, get_type_name
 from apischema.types import AnyType
 from apischema.utils import get_origin_or_type, is_hashable, replace_builtins
@@ -168,4 +169,8 @@ class DeserializationRefsExtractor(
 class SerializationRefsExtractor(
     RefsExtractor, SerializationVisitor, SerializationObjectVisitor
 ):
-    pass
+    def object(self, tp: AnyType, fields: Sequence[ObjectField]):
+        super().object(tp, fields)
+        # serialized methods are properties of the serialization schema too
+        for serialized, types in get_serialized_methods(tp):
+            self.visit_with_conv(types["return"], serialized.conversion)
